@@ -271,12 +271,26 @@ def fgScope (fuel : Nat) (root : Mod) (scope : List Stmt) (name : String) (seen 
       | some g => (some (g, root, n :: up), seen)
       | none =>
         let isMod := n.kw == "module" || n.kw == "submodule"
+        -- a name that still carries a prefix is resolved only by this (sub)module's own imports
+        let bare := !name.contains ':'
         match fgImports fuel (if isMod then n.all "import" else []) name seen with
         | (some r, seen) => (some r, seen)
         | (none, seen) =>
-          match fgIncludes fuel (if isMod then n.all "include" else []) name seen with
+          match fgIncludes fuel (if isMod && bare then n.all "include" else []) name seen with
           | (some r, seen) => (some r, seen)
-          | (none, seen) => fgScope fuel root up name seen
+          | (none, seen) =>
+            -- a submodule also sees the groupings of its owner and of the owner's other submodules
+            let viaOwner : Option GroupingRef × List String :=
+              if isMod && bare && root.isSub then
+                match (root.belongsTo?.bind reg.getModule) with
+                | some owner =>
+                  if seen.contains owner.name then (none, seen)
+                  else findGrouping fuel owner [owner.stmt] name (seen ++ [owner.name])
+                | none => (none, seen)
+              else (none, seen)
+            match viaOwner with
+            | (some r, seen) => (some r, seen)
+            | (none, seen) => fgScope fuel root up name seen
 
 def fgImports (fuel : Nat) (imports : List Stmt) (name : String) (seen : List String) :
     Option GroupingRef × List String :=
@@ -288,7 +302,7 @@ def fgImports (fuel : Nat) (imports : List Stmt) (name : String) (seen : List St
     | i :: rest =>
       let ip := (i.argOf? "prefix").getD ""
       let hit : Option GroupingRef × List String :=
-        if name.startsWith (ip ++ ":") then
+        if name.startsWith (ip ++ ":") && !((name.drop (ip.length + 1)).toString.contains ':') then
           match reg.findModule false i with
           | some im => findGrouping fuel im [im.stmt] (name.drop (ip.length + 1)).toString seen
           | none => (none, seen)
